@@ -265,14 +265,15 @@ def _parse_int(expr: cst.BaseExpression) -> int | None:
     Returns:
         The integer value, or ``None`` if the expression is not parseable.
     """
+    # Base 0: the literal of a seeded test may be hexadecimal, octal or binary.
     if isinstance(expr, cst.Integer):
-        return int(expr.value)
+        return int(expr.value, 0)
     if (
         isinstance(expr, cst.UnaryOperation)
         and isinstance(expr.operator, cst.Minus)
         and isinstance(expr.expression, cst.Integer)
     ):
-        return -int(expr.expression.value)
+        return -int(expr.expression.value, 0)
     return None
 
 
@@ -821,7 +822,12 @@ def _mutate_tuple(
         elems = elems[:idx] + elems[idx + 1 :]
     else:
         elems += [cst.Element(value=_element_value(constant_provider, element_pool))]
-    return expr.with_changes(elements=_tuple_elements(elems))
+    # A tuple written without parentheses (`x = 1,`) needs them once it is empty.
+    return expr.with_changes(
+        elements=_tuple_elements(elems),
+        lpar=expr.lpar or [cst.LeftParen()],
+        rpar=expr.rpar or [cst.RightParen()],
+    )
 
 
 def _mutate_dict(
